@@ -27,7 +27,7 @@ CLASSES = [
                       "_exe_deps": "List[Operation]#edeps", "_waiting_on": "int", "_deps_of": "List[Operation]#depsof"},
               virtual={"parallelizable": "bool", "main_task": "Opt[TaskType]", "associated_task": "Opt[TaskType]"},
               ghost={"g_inplan": "bool", "g_phase": "int", "g_marks": "Arr[int,bool]", "g_culprit": "Opt[Operation]",
-                     "g_finished_ok": "bool", "g_started": "bool", "g_back": "Arr[int,int]", "g_tid": "TaskIdentifier", "g_idx": "int"}),
+                     "g_finished_ok": "bool", "g_started": "bool", "g_back": "Arr[int,int]", "g_tid": "TaskIdentifier", "g_idx": "int", "g_iidx": "int", "g_last": "Opt[Operation]", "g_dpos": "int"}),
     ClassDecl("OutputHandler", file="utils/output_handler.py"),
     ClassDecl("OperationExecutionHandle", file="execution/handle.py",
               fields={"pid": "Opt[int]", "stdout": "Opt[OutputHandler]", "stderr": "Opt[OutputHandler]",
